@@ -7036,6 +7036,14 @@ impl<'a> Tyck<'a> for TyEnvT<su::TermId> {
                     let TermAnnId::Type(ty, _kd) = param else {
                         tycker.err_k(TyckError::SortMismatch, std::panic::Location::caller())?
                     };
+                    // The constructor term looks its payload type up in the first arm
+                    // of that name and the constructor pattern in the last one.
+                    if arms_vec.iter().any(|(declared, _)| *declared == name) {
+                        tycker.err_k(
+                            TyckError::Expressivity("a data type declares each constructor once"),
+                            std::panic::Location::caller(),
+                        )?
+                    }
                     arms_vec.push_back((name, ty));
                 }
                 let term = crate::query::InternedTerm::new(tycker.db, self.inner);
